@@ -750,7 +750,7 @@ def index_value(I, base, idx):
             vals = list(base)
             # choose by forking unless scalars merge
             r = vals[-1] if vals else None
-            merged = _try_merge_select(I, off, vals)
+            merged = None if getattr(I, "no_merge", False) else _try_merge_select(I, off, vals)
             if merged is not None:
                 return merged
             for k in range(n - 1):
@@ -802,6 +802,8 @@ def index_value(I, base, idx):
 
 
 def _select(I, cond, a, b):
+    if getattr(I, "no_merge", False) and not I.ctx.speculating:
+        return a if I.ctx.branch(cond) else b
     if is_intlike(a) and is_intlike(b) and not isinstance(a, SBV) and not isinstance(b, SBV):
         if isinstance(a, (bool, SBool)) and isinstance(b, (bool, SBool)):
             from .interp import _zb
